@@ -747,6 +747,9 @@ def run(chk, db, tier):
     sub12 = Sub(chk, "C12")
     sub12.rule("R7", "verbatim key: the bucket and key stored in S3Path are pieces of the URI path cut from the front; no operation on the way drops or rewrites characters")
     sub12.guard("R7", c12.rule_r7, db)
+    # ... and for the members bound to the query string: every name and value is percent-decoded exactly once
+    sub12.rule("R1", "the query reaches OrderedQs::parse as Uri::query() gave it (decoded exactly once, by the parser)")
+    sub12.guard("R1", c12.rule_r1q, db)
 
 
 META = {
